@@ -255,14 +255,14 @@ def stepX (s : XSt) (pt : Nat × Nat) : XSt × List XEv :=
       else if t ∈ P.twaiters then
         if P.twoken && P.twaiters.head? == some t then
           -- resumed from `await fut`: it owns the task lock and runs on to `lockf` without another `await`
-          ({ s with procs := setProc s.procs p
-              { P with tholder := some t, twoken := false, twaiters := P.twaiters.drop 1, busy := some t } }, [])
+          let P' : Proc := { P with tholder := some t, twoken := false, twaiters := P.twaiters.drop 1, busy := some t }
+          ({ s with procs := setProc s.procs p P' }, [])
         else (s, [])
       else if P.tholder.isNone && P.twaiters.isEmpty then tryLock s p t { P with tholder := some t } r
       else ({ s with procs := setProc s.procs p { P with twaiters := P.twaiters ++ [t] } }, [])
     | .pread :: r =>
-      ({ s with procs := setProc s.procs p
-          { P with ctr := some (cur s.file.data s.off), busy := none, progs := contProg P t r } },
+      let P' : Proc := { P with ctr := some (cur s.file.data s.off), busy := none, progs := contProg P t r }
+      ({ s with procs := setProc s.procs p P' },
        [match s.file.data[s.off]? with | none => .preadEmpty p t | some v => .pread p t v])
     | .send :: r =>
       match P.ctr with
@@ -277,10 +277,10 @@ def stepX (s : XSt) (pt : Nat × Nat) : XSt × List XEv :=
                             procs := setProc s.procs p { P with busy := some t, progs := contProg P t r } },
                    [.pwrite p t c])
     | .unlock :: r =>
+      let P' : Proc := { P with ctr := none, busy := none, tholder := none, twoken := !P.twaiters.isEmpty,
+                                progs := contProg P t r }
       ({ s with file := { s.file with owner := if s.file.owner == some p then none else s.file.owner },
-                procs := setProc s.procs p { P with ctr := none, busy := none, tholder := none,
-                                                    twoken := !P.twaiters.isEmpty, progs := contProg P t r } },
-       [.unlock p t])
+                procs := setProc s.procs p P' }, [.unlock p t])
 
 def runX (s : XSt) : List (Nat × Nat) → List XEv
   | [] => []
